@@ -56,6 +56,8 @@ class Interp:
                 if key in self.engine.overrides:
                     return self.engine.overrides[key](self)
                 return self.eval(mod.consts[name], Env(mod))
+        if name == '__name__' and mod is not None:
+            return mod.name
         b = self.models.builtin(name)
         if b is not None:
             return b
